@@ -221,7 +221,14 @@ fn ill_typed_stmt(d: &mut Dec, p: &GProg) -> (&'static str, String) {
             _ => None,
         })
         .collect();
-    let closed: [(&'static str, &'static str); 22] = [
+    let closed: [(&'static str, &'static str); 28] = [
+        // infinite types (the occurs check), through each type constructor
+        ("occurs-ref", "let _ = |q| ref_set(q, q);"),
+        ("occurs-vec", "let _ = |q| vec_push(q, q);"),
+        ("occurs-fn", "let _ = |q| q(q);"),
+        ("occurs-tuple", "let _ = |q| if true { q } else { (q, 1) };"),
+        ("occurs-array", "let _ = |q| if true { q } else { [q, q] };"),
+        ("occurs-ref-nested", "let _ = |q| ref_set(q, ref_get(ref_get(q)));"),
         ("neg-string", "let _ = -\"s\";"),
         ("not-int", "let _ = !1;"),
         ("add-bool-int", "let _ = true + 1;"),
